@@ -85,11 +85,23 @@ class Hang(BaseException):
 
 # ------------------------------------------------------------------------------------------ bounds
 
-_TIERS = {
-    'quick': {'sync': {'L': 4, 'lat': ['0', 'h']}, 'async': {'L': 3, 'lat': ['0', 'h']}},
-    'thorough': {'sync': {'L': 4, 'lat': ['0', 'm', 'h']}, 'async': {'L': 4, 'lat': ['0', 'h']}},
+# A plan is a list of blocks per client class; a case (s1, s2, latency, flavour) is in the plan when some block
+# has max(len(s1), len(s2)) <= L, the latency and the flavour.  Every case in the plan is run exactly once.
+_ALL = list(FLAVOURS)
+_PLANS = {
+    'quick': {
+        'sync': [{'L': 4, 'lat': ['0', 'h'], 'flavours': ['other']},
+                 {'L': 3, 'lat': ['0', 'h'], 'flavours': _ALL}],
+        'async': [{'L': 3, 'lat': ['0', 'h'], 'flavours': ['other']},
+                  {'L': 2, 'lat': ['0', 'h'], 'flavours': _ALL}],
+    },
+    'thorough': {
+        'sync': [{'L': 4, 'lat': ['0', 'm', 'h'], 'flavours': _ALL}],
+        'async': [{'L': 4, 'lat': ['0', 'h'], 'flavours': ['other']},
+                  {'L': 3, 'lat': ['0', 'm', 'h'], 'flavours': _ALL}],
+    },
 }
-_CHUNK = {'sync': 4, 'async': 1}          # s1 scripts per shard (quick async: see client_shards)
+_CHUNK = {'sync': 4, 'async': 2}          # s1 scripts per shard
 
 
 def _scripts(L):
@@ -99,8 +111,29 @@ def _scripts(L):
     return out
 
 
+def _variants(plan, s1, s2):
+    """The (latency, flavour) combinations the plan asks for on the pair (s1, s2), in a fixed order.
+    The flavour only exists for pairs containing an F."""
+    n = max(len(s1), len(s2))
+    has_f = 'F' in s1 or 'F' in s2
+    out = []
+    for lat in sorted(LATENCY):
+        for fl in FLAVOURS:
+            if not has_f and fl != FLAVOURS[0]:
+                continue
+            for blk in plan:
+                if n <= blk['L'] and lat in blk['lat'] and (fl in blk['flavours'] or not has_f):
+                    out.append((lat, fl))
+                    break
+    return out
+
+
+def _count(plan):
+    scripts = _scripts(max(b['L'] for b in plan))
+    return sum(len(_variants(plan, s1, s2)) for s1 in scripts for s2 in scripts)
+
+
 def client_bounds(tier):
-    t = _TIERS[tier]
     b = {
         'alphabet': {'O': 'own reply', 'S': 'stale reply (own reply of the previous call)',
                      'F': 'foreign reply', 'D': 'duplicate of the own reply',
@@ -109,39 +142,36 @@ def client_bounds(tier):
         'calls_per_case': '1 priming call + 2 judged calls on one client object',
         'timeout_s': TIMEOUT_S,
         'latency_x_timeout': LATENCY,
+        'reading': 'all pairs (s1, s2) of scripts of length 0..L, for each listed latency and (pairs with an F '
+                   'only) each listed flavour; a case covered by two blocks is run once',
     }
     for cl in ('sync', 'async'):
-        n = len(_scripts(t[cl]['L']))
-        nf = len(_scripts_without_f(t[cl]['L']))
-        b[cl] = {'script_length_max': t[cl]['L'], 'scripts': n, 'script_pairs': n * n,
-                 'latencies': t[cl]['lat'],
-                 'cases': (nf * nf + (n * n - nf * nf) * len(FLAVOURS)) * len(t[cl]['lat'])}
+        plan = _PLANS[tier][cl]
+        b[cl] = {'blocks': [{'script_length_max': blk['L'], 'scripts': len(_scripts(blk['L'])),
+                             'latencies': blk['lat'], 'flavours': blk['flavours']} for blk in plan],
+                 'cases': _count(plan)}
     return b
 
 
-def _scripts_without_f(L):
-    return [s for s in _scripts(L) if 'F' not in s]
-
-
 def client_shards(tier):
-    t = _TIERS[tier]
     out = []
     for cl in ('async', 'sync'):            # the slower family first
-        scripts = _scripts(t[cl]['L'])
+        plan = _PLANS[tier][cl]
+        scripts = _scripts(max(b['L'] for b in plan))
+        scripts.sort(key=lambda w: (-len(w), w))     # long first scripts first: they have the most partners
         chunk = _CHUNK[cl]
         for i in range(0, len(scripts), chunk):
-            out.append({'client': cl, 'L': t[cl]['L'], 's1': scripts[i:i + chunk], 'lat': t[cl]['lat']})
+            out.append({'client': cl, 's1': scripts[i:i + chunk]})
     return out
 
 
-def _cases_of(shard):
-    scripts = _scripts(shard['L'])
+def _cases_of(shard, tier):
+    plan = _PLANS[tier][shard['client']]
+    scripts = _scripts(max(b['L'] for b in plan))
     for s1 in shard['s1']:
         for s2 in scripts:
-            flavours = FLAVOURS if ('F' in s1 or 'F' in s2) else FLAVOURS[:1]
-            for lat in shard['lat']:
-                for fl in flavours:
-                    yield {'client': shard['client'], 's1': s1, 's2': s2, 'lat': lat, 'foreign': fl}
+            for lat, fl in _variants(plan, s1, s2):
+                yield {'client': shard['client'], 's1': s1, 's2': s2, 'lat': lat, 'foreign': fl}
 
 
 # ------------------------------------------------------------------------------------------ scripted wire
@@ -176,8 +206,32 @@ Msg = collections.namedtuple('Msg', 'payload call kind')      # kind in O S F D;
 #                                                               script produced it
 
 
+_PAYLOADS = {}
+_PARSED = {}
+
+
 def _payload(kind, k, ids, flavour):
     """The bytes of one scripted reply of call k.  ids[j] = the id call j put in its request."""
+    key = (kind, k, ids.get(k), ids.get(k - 1), flavour if kind == 'F' else None)
+    p = _PAYLOADS.get(key)
+    if p is None:
+        if len(_PAYLOADS) > 10000:
+            _PAYLOADS.clear()
+        p = _PAYLOADS[key] = _make_payload(kind, k, ids, flavour)
+    return p
+
+
+def _parsed(payload):
+    """json of a scripted payload (shared object: compare only, never mutate)."""
+    d = _PARSED.get(payload)
+    if d is None:
+        if len(_PARSED) > 10000:
+            _PARSED.clear()
+        d = _PARSED[payload] = json.loads(payload)
+    return d
+
+
+def _make_payload(kind, k, ids, flavour):
     def own(j):
         return {'id': ids[j], 'status': 'ok', 'time': 1.5, 'answers_call': j}
     if kind in 'OD':
@@ -515,14 +569,17 @@ class _Patched(object):
         self.uuid = _FakeUUID()
         self.wire = None
         self.saved = None
+        self.trap = _LogTrap()
 
     def __enter__(self):
         self.saved = (CC.uuid, CC.zmq)
         CC.uuid = self.uuid
         CC.zmq = _ZmqProxy(self.saved[1], lambda: _SyncPoller(self.wire))
+        self.trap.__enter__()
         return self
 
     def __exit__(self, *a):
+        self.trap.__exit__()
         CC.uuid, CC.zmq = self.saved
 
 
@@ -595,7 +652,8 @@ def _run_async(case, patched):
     make_current(loop)
     out = []
     io = client = ctx = None
-    with _LogTrap() as trap:
+    trap = patched.trap
+    if True:
         try:
             io = ioloop.IOLoop.current()
             wire = _AsyncWire(case['foreign'], loop, CLOCK)
@@ -667,8 +725,7 @@ def _judge(case, obs, prev_hung):
     cl = case['client']
     v = obs.verdict
     out = []
-    own_payloads = [json.loads(m.payload) for t, m in obs.timeline if m.call == obs.k and m.kind in 'OD']
-    expected_value = json.loads(obs.timeline[v.index][1].payload) if v.index is not None else None
+    own_payloads = [_parsed(m.payload) for t, m in obs.timeline if m.call == obs.k and m.kind in 'OD']
     had_to_wait = v.discarded > 0 or v.kind != REF.RETURN or obs.timeline[v.index][0] > 0
 
     def detail(shape, text):
@@ -693,7 +750,7 @@ def _judge(case, obs, prev_hung):
         if not ok:
             shape = 'returned_unknown'
             for m in obs.consumed:
-                if json.loads(m.payload) == obs.value:
+                if _parsed(m.payload) == obs.value:
                     shape = 'returned_%s' % (_kind_name(m, obs.k).split('(')[0].replace('-of-call-%d' % m.call, ''))
                     if m.kind == 'F':
                         shape += ':' + case['foreign']
@@ -748,7 +805,13 @@ def _judge(case, obs, prev_hung):
     ok = obs.result != 'hang'
     shape = 'ok'
     if not ok:
-        shape = 'waits_forever_without_own_reply' if v.kind == REF.TIMEOUT else 'own_reply_not_returned'
+        if v.kind == REF.TIMEOUT:
+            shape = 'waits_forever_without_own_reply'
+        elif any(m.call == obs.k and m.kind in 'OD' for m in obs.consumed):
+            # the own reply was taken off the socket and the call still did not return it
+            shape = 'own_reply_dropped' + (':%s_in_stream_callback' % '+'.join(obs.errors) if obs.errors else '')
+        else:
+            shape = 'own_reply_never_read'
     sh_h = shape
     out.append(('C06.no_hang', ok, sh_h, lambda: detail(sh_h, obs.hang), had_to_wait))
     return out
@@ -780,7 +843,7 @@ def run_client_shard(shard, tier):
     info = collections.Counter()
     where = WHERE[shard['client']]
     with _Patched() as patched:
-        for case in _cases_of(shard):
+        for case in _cases_of(shard, tier):
             r.cases += 1
             obs, judged = _evaluate(case, patched)
             for clause, ok, shape, det, nt, k in judged:
